@@ -145,6 +145,15 @@ def _exec_history(case):
             y0 = cut(current, probe)
         if isinstance(y0, Raised):
             return out.fail(f"forward-raises:{y0.type}", y0.text)
+        # the same batch handed over already quantized, with a scale of its own (as an upstream quantized module would)
+        probe_q, yq0 = None, None
+        if aq is not None and fam != "conv":
+            from optimum.quanto import quantize_activation
+
+            s_q = (probe.abs().max() / 90.0).to(dtype)
+            probe_q = quantize_activation(probe, aq, torch.where(s_q > 0, s_q, torch.ones_like(s_q)))
+            with torch.no_grad():
+                yq0 = cut(current, probe_q)
         src_facts = {n: module_facts(m) for n, m in current.named_modules() if isinstance(m, QModuleMixin)}
         # ---- the target
         g2 = torch.Generator().manual_seed(case["seed"] + 17 + ci)
@@ -185,6 +194,11 @@ def _exec_history(case):
             y1 = cut(tgt, probe)
         if isinstance(y1, Raised):
             return out.fail(f"{ttag}/forward-raises:{y1.type}", y1.text)
+        if probe_q is not None and not isinstance(yq0, Raised) and not out.failures:
+            with torch.no_grad():
+                yq1 = cut(tgt, probe_q)
+            if isinstance(yq1, Raised) or not same_output(yq0, yq1):
+                out.fail(f"{ttag}/output-differs-on-quantized-input", f"outputs on an already quantized batch differ after loading ({case['wq']}, act {case['aq']}, {fam})")
         if not same_output(y0, y1) and not out.failures:
             out.fail(f"{ttag}/output-differs", f"outputs of the loaded model differ from the saved model's ({case['wq']}, act {case['aq']}, calibrate {case['calibrate']}, {fam})")
         # (5) saving again gives an equal state_dict
